@@ -876,6 +876,15 @@ class CExec:
             if m in ptrs and ptrs[m].block is not None:
                 b = ptrs[m].block
                 st.mem[b] = b.fresh("@" + name)
+                if self.write_log is not None:
+                    # inside a parallel region a callee taken by contract writes "somewhere" in this block
+                    unk = [z3.Int("callee!idx!%d" % next(Block._ids)) for _ in b.shape]
+                    self.write_log.append(("w", b, unk, list(st.pc), node))
+        if self.write_log is not None:
+            for pn, pv in ptrs.items():
+                if pv.block is not None and pn not in c.modifies:
+                    unk = [z3.Int("callee!idx!%d" % next(Block._ids)) for _ in pv.block.shape]
+                    self.write_log.append(("r", pv.block, unk, list(st.pc), node))
         rt = parse_type(fn["type"]["qualType"].split("(")[0].strip())
         ret = None
         if rt == "real":
@@ -1640,7 +1649,15 @@ class CExec:
         # rename iteration-local symbols (created after the parallel region started) in the second access
         consts = {}
 
+        seen_c = set()
+
         def collect(x):
+            if x.get_id() in seen_c:
+                return
+            seen_c.add(x.get_id())
+            if z3.is_quantifier(x):
+                collect(x.body())
+                return
             if z3.is_const(x) and x.decl().kind() == z3.Z3_OP_UNINTERPRETED:
                 consts[x.decl().name()] = x
             for c_ in x.children():
@@ -1661,7 +1678,15 @@ class CExec:
         ivs = [c_ for nm, c_ in consts.items() if nm.startswith(loop_name + "@loop")]
         wconsts = {}
 
+        seen_w = set()
+
         def collect2(x):
+            if x.get_id() in seen_w:
+                return
+            seen_w.add(x.get_id())
+            if z3.is_quantifier(x):
+                collect2(x.body())
+                return
             if z3.is_const(x) and x.decl().kind() == z3.Z3_OP_UNINTERPRETED:
                 wconsts[x.decl().name()] = x
             for c_ in x.children():
